@@ -261,5 +261,11 @@ def run(F, rep, tier):
         if ng:
             rep.viol('R16.5', p + '|neg', 'unchecked negation of an i32 exponent', b.loc(0))
     rep.ok('R16.5', 'decimal.rs scan', '%d functions scanned for digit-dropping trims and unchecked negation' % len(dec))
+    # ---------------- R16.6
+    rep.rule('R16.6', 'crate-wide census of lossy conversions: every narrowing or sign-changing integer `as` cast and every float->int `as` '
+             'cast is in the reviewed table with an exact count per function (conversions are exact or rejected, never silently truncated)')
+    from .census import check_casts
+    n6 = check_casts(C, set(F.fns), rep, 'R16.6', T.CAST_TABLE, 'conversion')
+    rep.floor('R16.6', 'lossy casts in the crate', n6, 15)
     rep.undecided += ['int(str(n)) == n and the other round trips as equations', 'base64 / gzip / JSON codecs themselves (dependencies)']
     return META
